@@ -49,12 +49,19 @@ def _modules():
     return [drive.mod("edit"), drive.mod("commands"), pyben.api, pyben.bencode, pyben.classes]
 
 
-def _phase1(workdir, orig, req, via):
-    """Un-faulted run with full tracing.  (grandchild)"""
+def _place(workdir, orig, setup):
+    """Fresh copy of the metafile with the case's mode; returns the path as the edit will be given it."""
     os.makedirs(workdir, exist_ok=True)
     mpath = os.path.join(workdir, "m.torrent")
     shutil.copyfile(orig, mpath)
+    os.chmod(mpath, setup.get("mode", 0o644))
     os.chdir(workdir)
+    return "m.torrent" if setup.get("relative") else mpath
+
+
+def _phase1(workdir, orig, req, via, setup):
+    """Un-faulted run with full tracing.  (grandchild)"""
+    mpath = _place(workdir, orig, setup)
     lt = faults.LineTracer(_modules())
     ff = faults.FsFaults()
     ff.install()
@@ -73,12 +80,9 @@ def _phase1(workdir, orig, req, via):
             "leftovers": leftovers}
 
 
-def _phase2(workdir, orig, req, via, fault):
+def _phase2(workdir, orig, req, via, fault, setup):
     """One faulted run (grandchild).  Returns exception name (or dies)."""
-    os.makedirs(workdir, exist_ok=True)
-    mpath = os.path.join(workdir, "m.torrent")
-    shutil.copyfile(orig, mpath)
-    os.chdir(workdir)
+    mpath = _place(workdir, orig, setup)
     if fault[0] == "line":
         lt = faults.LineTracer(_modules())
         lt.start(crash_at=fault[1])
@@ -95,11 +99,8 @@ def _phase2(workdir, orig, req, via, fault):
     return {"exc": exc, "reached": len(ff.ops) > fault[1]}
 
 
-def _phase_unencodable(workdir, orig, args):
-    os.makedirs(workdir, exist_ok=True)
-    mpath = os.path.join(workdir, "m.torrent")
-    shutil.copyfile(orig, mpath)
-    os.chdir(workdir)
+def _phase_unencodable(workdir, orig, args, setup):
+    mpath = _place(workdir, orig, setup)
     return {"exc": _raw_request_call(mpath, args)}
 
 
@@ -118,7 +119,7 @@ UNENCODABLE = [
 class C17:
     id = "C17"
     level = "fault_enumeration"
-    quick, thorough = 36, 360
+    quick, thorough = 48, 720
     timeout = 600
     rule = ("case = (metafile v1/v2/hybrid, edit request, route); phase 1 traces the un-faulted edit: every LINE event "
             "inside torrentfile.edit / torrentfile.commands / pyben (sys.monitoring) and every filesystem operation "
@@ -132,7 +133,7 @@ class C17:
             "(un-faulted) bytes; after a raised error: the old ones unless the new file was already in place.  Every "
             "faulted execution is one evaluation; distinct by (version, request shape, fault point kind, fault kind)")
     required = ("line_fault_points", "op_fault_points", "write_byte_fault_points", "error_faults", "crashes_observed",
-                "errors_propagated", "unencodable_requests", "traces_complete")
+                "errors_propagated", "unencodable_requests", "traces_complete", "readonly_metafile_cases")
     assumptions = ("crash = process death at a Python-visible point (os._exit); power-loss durability of un-fsynced "
                    "data is not observable here", "the filesystem primitives listed in monitors/faults.py are the only "
                    "ones used (checked per case against the audit hook)")
@@ -146,6 +147,7 @@ class C17:
         return {"version": version, "via": route, "req": req, "opts": gen_opts(rng),
                 "files": [[f"f{k}", rng.choice([10, 20000, 40000]), rng.randrange(1 << 30)] for k in range(nfiles)],
                 "seed": rng.randrange(1 << 30), "extra_lines": 24 if tier == "quick" else 60,
+                "mode": rng.choice([0o644, 0o644, 0o600, 0o444, 0o400, 0o664]), "relative": rng.random() < 0.3,
                 "unenc": [rng.randrange(len(UNENCODABLE)) for _ in range(2)]}
 
     @staticmethod
@@ -163,7 +165,8 @@ class C17:
         orig = os.path.join(scratch, "orig.torrent")
         with open(orig, "wb") as fd:
             fd.write(old)
-        st, p1 = fork_call(_phase1, os.path.join(scratch, "p1"), orig, case["req"], case["via"])
+        setup = {"mode": case.get("mode", 0o644), "relative": case.get("relative", False)}
+        st, p1 = fork_call(_phase1, os.path.join(scratch, "p1"), orig, case["req"], case["via"], setup)
         if st != "ok":
             return {"inconclusive": f"phase 1 {st}", "traceback": str(p1)[-1500:]}
         counters, viol, sigs = {}, [], set()
@@ -207,7 +210,7 @@ class C17:
         bad_samples = []
         for n, (fault, fkind, where) in enumerate(flist):
             wd = os.path.join(scratch, f"f{n}")
-            st, res = fork_call(_phase2, wd, orig, case["req"], case["via"], fault, timeout=60)
+            st, res = fork_call(_phase2, wd, orig, case["req"], case["via"], fault, setup, timeout=60)
             execs += 1
             if st == "timeout":
                 return {"inconclusive": "faulted run timed out"}
@@ -234,7 +237,8 @@ class C17:
                 counters["error_faults"] = counters.get("error_faults", 0) + 1
             state = "old" if cur == old else "new" if cur == new else "missing" if cur is None else \
                 "empty" if cur == b"" else "truncated" if new.startswith(cur) or old.startswith(cur) else "other"
-            sigs.add((case["version"], str(reqshape), fkind, str(where) if fkind != "line-crash" else where[0] + ":" + where[1]))
+            sigs.add((case["version"], str(reqshape), fkind, str(where) if fkind != "line-crash" else where[0] + ":" + where[1],
+                      oct(case.get("mode", 0o644))))
             if state not in ("old", "new"):
                 v = oracles.V("metafile-" + state + "-after-fault", fault_kind=fkind, at=list(where) if isinstance(where, tuple) else where,
                               fault=[str(x) for x in fault], crashed=crashed, raised=None if crashed else res.get("exc"),
@@ -250,7 +254,7 @@ class C17:
         for ui in case["unenc"]:
             label, args = UNENCODABLE[ui]
             wd = os.path.join(scratch, f"u{ui}")
-            st, res = fork_call(_phase_unencodable, wd, orig, args, timeout=60)
+            st, res = fork_call(_phase_unencodable, wd, orig, args, setup, timeout=60)
             execs += 1
             counters["unencodable_requests"] = counters.get("unencodable_requests", 0) + 1
             try:
@@ -272,9 +276,12 @@ class C17:
                 viol.append(oracles.V("metafile-lost-by-unencodable-request", request=label,
                                       state="missing" if cur is None else f"{len(cur)} bytes",
                                       raised=res.get("exc") if st == "ok" else st))
+        if not case.get("mode", 0o644) & 0o200:
+            counters["readonly_metafile_cases"] = 1
         return {"violations": viol, "counters": counters, "nontrivial": True, "evaluations": execs,
                 "sigs": [list(s) for s in sigs],
                 "sample": {"version": case["version"], "via": case["via"], "request": case["req"],
+                           "metafile_mode": oct(case.get("mode", 0o644)), "relative_path": case.get("relative", False),
                            "line_events_in_trace": nlines, "distinct_lines": len(first),
                            "fs_ops_in_trace": [[k, os.path.basename(p), e if not isinstance(e, list) else e] for k, p, e in p1["ops"]],
                            "audit_events": p1["audit"], "faulted_executions": execs, "temp_leftovers_unfaulted": p1["leftovers"],
@@ -297,7 +304,7 @@ def _audit_paths_outside_dev(events):
 
 class C18:
     id = "C18"
-    quick, thorough = 500, 8000
+    quick, thorough = 1500, 30000
     timeout = 120
     rule = ("case = sandbox (payload tree, metafile directory, working directory, output directory) x command: "
             "recheck|check / info / magnet|m (with -q / -v, intact and damaged content, v1/v2/hybrid), create|new|implicit "
@@ -309,7 +316,8 @@ class C18:
             "identical bytes, or error and empty diff when the target exists; distinct by (command spelling, version, "
             "flags, option subset, content state, out form)")
     required = ("snap_recheck", "snap_info", "snap_magnet", "snap_create", "snap_rename", "create_write_events_seen",
-                "probe_path_preexisting", "rename_target_exists", "damaged_content_cases")
+                "probe_path_preexisting", "probe_path_preexisting_empty", "failing_create_cases", "rename_target_exists",
+                "damaged_content_cases")
     assumptions = ("directory mtimes are not part of the snapshot", "stdout/stderr go to /dev/null (never to a file in the sandbox)")
 
     @staticmethod
@@ -323,7 +331,8 @@ class C18:
         if cmd in ("create", "new", "implicit"):
             case["opts"] = gen_opts(rng)
             case["out"] = rng.choice([None, None, "file", "file", "dir"])
-            case["preexisting"] = rng.choice([None, None, "probe", "probe", "outfile"])
+            case["preexisting"] = rng.choice([None, None, "probe", "probe", "probe-empty", "outfile", "outfile-empty"])
+            case["fail"] = rng.random() < 0.15        # invalid piece length: create must fail without side effects
             case["pl"] = rng.choice([None, 14, 16384, 15])
             case["align"] = rng.random() < 0.2
             case["magnet"] = rng.random() < 0.2
@@ -413,7 +422,9 @@ class C18:
             o = case["opts"]
             argv = prefix + ([] if cmd == "implicit" else [cmd])
             argv += [root, "--meta-version", str(case["version"]), "--prog", rng.choice(["0", "1", "2"])]
-            if case["pl"]:
+            if case.get("fail"):
+                argv += ["--piece-length", rng.choice(["17000", "12", "abc"])]
+            elif case["pl"]:
                 argv += ["--piece-length", str(case["pl"])]
             if o.get("private"):
                 argv.append("--private")
@@ -443,15 +454,20 @@ class C18:
                 argv += ["--web-seed"] + o["url_list"]
             if o.get("httpseeds"):
                 argv += ["--http-seed"] + o["httpseeds"]
-            if case["preexisting"] == "probe" and probe and os.path.join(sb, outrel) != probe:
+            pre = case["preexisting"] or ""
+            if pre.startswith("probe") and probe and os.path.join(sb, outrel) != probe:
                 with open(probe, "wb") as fd:
-                    fd.write(b"an unrelated file that happens to be called .torrent")
+                    fd.write(b"" if pre == "probe-empty" else b"an unrelated file that happens to be called .torrent")
                 counters["probe_path_preexisting"] = 1
-            elif case["preexisting"] == "outfile":
+                if pre == "probe-empty":
+                    counters["probe_path_preexisting_empty"] = 1
+            elif pre.startswith("outfile"):
                 with open(os.path.join(sb, outrel), "wb") as fd:
-                    fd.write(b"previous output")
+                    fd.write(b"" if pre == "outfile-empty" else b"previous output")
                 may_change.add(outrel)
-            if outrel not in may_change:
+            if case.get("fail"):
+                counters["failing_create_cases"] = 1
+            elif outrel not in may_change:
                 expect_added.add(outrel)
         before = env.snapshot(sb)
         env.AUDIT.start()
@@ -491,7 +507,13 @@ class C18:
         else:
             if wevents:
                 counters["create_write_events_seen"] = 1
-            if not oc.ok:
+            if case.get("fail"):
+                if oc.ok:
+                    viol.append(oracles.V("create-accepted-invalid-piece-length", argv=shown))
+                elif d["removed"] or d["changed"] or set(d["added"]) - {outrel}:
+                    viol.append(oracles.V("failed-create-modified-sandbox", diff=d, argv=shown,
+                                          preexisting=case["preexisting"], out=case["out"]))
+            elif not oc.ok:
                 viol.append(oracles.V("create-raised", argv=shown, exc=oc.excname(), tb=(oc.tb or "")[-800:]))
             else:
                 added, removed, changed = set(d["added"]), set(d["removed"]), set(d["changed"])
@@ -502,7 +524,8 @@ class C18:
                     viol.append(oracles.V("create-added-unexpected", added=sorted(added), want=sorted(expect_added), argv=shown))
                 if not changed <= may_change:
                     viol.append(oracles.V("create-changed-unexpected", changed=sorted(changed - may_change), argv=shown))
-        flags = [case["flag"], case.get("out"), case.get("preexisting"), case.get("target_exists"), case["damage"] and kind != "create"]
+        flags = [case["flag"], case.get("out"), case.get("preexisting"), case.get("target_exists"),
+                 case["damage"] and kind != "create", bool(case.get("fail"))]
         return {"violations": viol, "counters": counters, "reach": reach.collect(), "nontrivial": True,
                 "sig": [cmd, case["version"], flags, sorted(case.get("opts", {})), tree["layout"]],
                 "sample": {"argv": shown, "diff": d, "write_events": [[e, [p.replace(scratch, "<S>") for p in ps]] for e, ps in wevents[:4]],
